@@ -194,7 +194,7 @@ class Ghost:
             return v
         raise RaiseSig(I.instantiate(v, [], {}, node), where=I.where(node))
 
-    INPUT_APIS = ("lazy_dict", "int", "bool", "real", "choice", "bytes", "bytes_fixed", "opaque", "opaque_seq", "intset", "map", "text", "seq", "sym_list")
+    INPUT_APIS = ("lazy_dict", "lazy_set", "int", "bool", "real", "choice", "bytes", "bytes_fixed", "opaque", "opaque_seq", "intset", "map", "text", "seq", "sym_list")
 
     def _input(self, m, a, k, n):
         """inputs are deterministic by name: re-running an abstract contract (replay of its
@@ -600,6 +600,25 @@ class Ghost:
         I = self.I
         ctx.register_input(name, lambda model, d=d: lazydict.model_entries(I, d, model))
         return d
+
+    def vc_lazy_set(self, args, kwargs, node):
+        """vc.lazy_set(name, gen_key): a set with arbitrary, unbounded contents"""
+        from .values import LazySetV
+
+        d = self.vc_lazy_dict([args[0], BuiltinFn("true", lambda I, a, k, n: True), args[1] if len(args) > 1 else kwargs.get("gen_key")], {}, node)
+        return LazySetV(d)
+
+    def vc_coro_info(self, args, kwargs, node):
+        """vc.coro_info(c): (qualified name of the coroutine function, args, kwargs) of a
+        coroutine object that has not run yet (symbolic hooks only)"""
+        c = args[0]
+        if not isinstance(c, CoroV):
+            raise OutsideSubset("vc.coro_info of a non-coroutine")
+        f = c.func
+        while f.wraps is not None:
+            f = f.wraps
+        kw = DictV([[k, v] for k, v in c.kwargs.items()])
+        return (f.qualname, tuple(c.args), kw)
 
     def vc_copy(self, args, kwargs, node):
         """vc.copy(x): independent copy of a mutable harness value with equal contents"""
